@@ -33,6 +33,8 @@ class SquashedNormal(AbstractTransformedDistribution[Float[Array, " dims"]]):
     ):
         loc = jnp.asarray(loc)
         scale = jnp.asarray(scale)
+        high = jnp.asarray(high)
+        low = jnp.asarray(low)
 
         (high, low) = eqx.error_if(
             (high, low),
@@ -40,9 +42,6 @@ class SquashedNormal(AbstractTransformedDistribution[Float[Array, " dims"]]):
             "SquashedNormal requires finite low/high for all "
             "dimensions. Got non-finite bounds.",
         )
-
-        high = jnp.asarray(high)
-        low = jnp.asarray(low)
 
         normal = distributions.Normal(loc=loc, scale=scale)
 
